@@ -1166,7 +1166,7 @@ func (p *policiesCfg) addJWTAuthConfig(
 			JwksURI:  *JwksURI,
 			Realm:    jwtAuth.Realm,
 			Token:    jwtAuth.Token,
-			KeyCache: jwtAuth.KeyCache,
+			KeyCache: generateTime(jwtAuth.KeyCache),
 		}
 		p.JWTAuth.JWKSEnabled = true
 		return res
@@ -2095,6 +2095,15 @@ func generateHealthCheck(
 	return hc
 }
 
+// generateSessionCookieExpires renders the validated expires value as one NGINX time token
+// ("1h 30m" is a valid time, but must reach the sticky directive as "1h30m").
+func generateSessionCookieExpires(expires string) string {
+	if expires == "" || expires == "max" {
+		return expires
+	}
+	return generateTime(expires)
+}
+
 func generateSessionCookie(sc *conf_v1.SessionCookie) *version2.SessionCookie {
 	if sc == nil || !sc.Enable {
 		return nil
@@ -2104,7 +2113,7 @@ func generateSessionCookie(sc *conf_v1.SessionCookie) *version2.SessionCookie {
 		Enable:   true,
 		Name:     sc.Name,
 		Path:     sc.Path,
-		Expires:  sc.Expires,
+		Expires:  generateSessionCookieExpires(sc.Expires),
 		Domain:   sc.Domain,
 		HTTPOnly: sc.HTTPOnly,
 		Secure:   sc.Secure,
